@@ -77,6 +77,11 @@ func (qpc *QuotaPreemptionContext) tryPreemption() {
 		}
 		return
 	}
+	// nothing is preemptable (usage inside the max, or everything above it is guaranteed higher up): there is
+	// nothing to distribute over the children
+	if resources.IsZero(qpc.preemptableResource) {
+		return
+	}
 	leafQueues := make(map[*Queue]*QuotaPreemptionContext)
 	getChildQueuesPreemptableResource(qpc.queue, qpc.preemptableResource, leafQueues)
 
